@@ -475,8 +475,16 @@ package common
 //@   ensures hash: forall k :: {out[k]} 1 <= k && k < 32 ==> out[k] == sha256(seq(p))[k]
 
 // state getters used by payload processing: assumed not to write any memory the caller can see (C18)
+//@ ufun st_slot_err(StateI) bool
+//@ ufun st_slot(StateI) int
+//@ ufun st_latest_err(StateI) bool
+//@ ufun st_latest(StateI) HeaderP
+//@ sort HeaderP = *BeaconBlockHeader
 //@ func (s BeaconState) Slot() (r, err)
 //@   trusted
+//@   opt noalloc
+//@   ensures (err != nil) == st_slot_err(s)
+//@   ensures err == nil ==> r == st_slot(s)
 //@ func (s BeaconState) GenesisTime() (r, err)
 //@   trusted
 //@ func (s BeaconState) RandaoMixes() (r, err)
@@ -486,7 +494,8 @@ package common
 //@   ensures err == nil ==> r == st_mixes(s) && r != nil
 //@ func (s BeaconState) LatestBlockHeader() (r, err)
 //@   trusted
-//@   ensures err == nil ==> r != nil
+//@   ensures (err != nil) == st_latest_err(s)
+//@   ensures err == nil ==> r != nil && r == st_latest(s)
 //@ sort MixesI = RandaoMixes
 //@ ufun mix_err(MixesI, int) bool
 //@ ufun mix_at(MixesI, int) Root32
@@ -770,13 +779,29 @@ package common
 //@   opt noalloc
 //@   ensures r == header_root(*b)
 
+//@ sort CkptT = Checkpoint
+//@ ufun st_curjust_err(StateI) bool
+//@ ufun st_curjust(StateI) CkptT
+//@ ufun st_prevjust_err(StateI) bool
+//@ ufun st_prevjust(StateI) CkptT
+//@ func (s BeaconState) CurrentJustifiedCheckpoint() (r, err)
+//@   trusted
+//@   opt noalloc
+//@   ensures (err != nil) == st_curjust_err(s)
+//@   ensures err == nil ==> r == st_curjust(s)
+//@ func (s BeaconState) PreviousJustifiedCheckpoint() (r, err)
+//@   trusted
+//@   opt noalloc
+//@   ensures (err != nil) == st_prevjust_err(s)
+//@   ensures err == nil ==> r == st_prevjust(s)
+
 
 // BEGIN C18 generated (tools/gen_c18.py in /verif)
 // cancelled: a context cancelled before the call makes it fail; surfaced: a cancellation observed by a poll
 // during the call makes it fail; polled: success after a poll means the context was not cancelled at entry.
 
 //@ func ProcessHeader(ctx, spec, state, header, expectedProposer) err
-//@   property C18
+//@   property C18 C03
 //@   panics off
 //@   requires ctx != nil
 //@   opt weakcalls
@@ -789,6 +814,11 @@ package common
 //@   loop *
 //@     invariant ctx_t >= old(ctx_t) && (old(ctx_seen) || !ctx_seen)
 //@     invariant ctx_t > old(ctx_t) ==> !ctx_cancelled(ctx, old(ctx_t))
+//@   ensures c03_slot: err == nil ==> !st_slot_err(state) && old(header.Slot) == st_slot(state)
+//@   ensures c03_newer: err == nil ==> !st_latest_err(state) && old(st_latest(state).Slot) < old(header.Slot)
+//@   ensures c03_proposer: err == nil ==> !st_vals_err(state) && reg_valid(st_vals(state), old(header.ProposerIndex)) && old(header.ProposerIndex) == expectedProposer
+//@   ensures c03_parent: err == nil ==> old(header.ParentRoot) == header_root(old(*st_latest(state)))
+//@   ensures c03_not_slashed: err == nil ==> !v_slashed(reg_val(st_vals(state), old(header.ProposerIndex)))
 
 //@ func ProcessSlot(ctx, unused1, state) err
 //@   property C18
